@@ -351,7 +351,7 @@ def _title_rule(node: Node) -> list:
     title = node.content
     if title is not None:
         if node.parent is not None and node.parent.name == names.DATASET:
-            length = len(normalize(title).split(" "))
+            length = len(normalize(title).split())
             if length < 5:
                 evaluation.append((
                     EvaluationWarning.TITLE_TOO_SHORT,
